@@ -54,6 +54,37 @@ CLAIMED["C07"] = ("exploration",
     "Trusted: SetSeeds-before-main reproduces seed-dependent behaviour (each worker reports the fingerprint of the seeds in force; floor: K distinct fingerprints). 'All seeds' is sampled. Known: superimposed-sequence construction, multi-valued dict keys, float sum/mean order.",
     "DESIGN.md §7 C07")
 
+CLAIMED["C08"] = ("exploration",
+    "differential (metamorphic) runtime monitor: program vs one documented rewrite of it, both evaluated by the real compiler/evaluator and compared by denotation and success/failure",
+    "Programs come from a harness-owned typed AST (seed-independent corpus of ~2200 + seeded random programs, depth<=5); rewrites R1 let/arrow/lambda-application, R2 sugar/spelled-out/relation literal, R3 default vs explicit binder, R4 comments/whitespace at grammar C* positions, R5 redundant parentheses, R6 minimal vs full parenthesisation from the documented precedence table, R7 capture-avoiding inlining of let-bound values, R8 unselected cond/&&/|| branch replaced by a failing expression, R9 literals hidden from constant folding; each applied at every applicable position, one at a time.",
+    "Trusted: the harness's printer/precedence table (transcribed from the documented grammar) and substitution. Error text is never compared. Macros, xstr templates, rec and imports are outside the generated fragment.",
+    "DESIGN.md §7 C08")
+CLAIMED["C12"] = ("exploration",
+    "runtime round-trip monitor: value -> printed text (fu.Repr, //str.repr, OutputValue, bundle config) -> evaluated again -> compared by denotation, plus a second generation",
+    "Values are built from model values through several construction paths and from string contents over every code point below U+0300 plus astral/surrogate-adjacent samples, quotes, escapes-lookalikes, 14 classes of attribute names, offset/sparse sequences, multi-valued dicts, nested relations and 20k numbers satisfying the <15-character precondition; each printed form must evaluate to a value with the same denotation, and its re-print must read back to the original too. Bundle configs with hostile module names/paths are read back through the bundle runtime.",
+    "Trusted: Denote; the precondition filter on numbers. Repr(v')=Repr(v) is not required (equal values may legitimately print differently across representations).",
+    "DESIGN.md §7 C12")
+CLAIMED["C13"] = ("exploration",
+    "runtime round-trip monitors per codec (JSON, YAML, CSV, bits, wire) against trusted Go parsers (encoding/json, yaml.v3) and the value model",
+    "Exhaustive small core (5.1k documents, 5.4k CSV matrices x 4 option sets, 4.3k integers) plus seeded documents of depth<=5 with corner values: enc(dec(d)) must parse to the same content as d (numbers as float64), dec(enc(dec(d)))=dec(d) (non-strict decoders judged modulo their documented collapse), CSV decode(encode(m))=m or rejection, bits.set/mask inverse below 2^53, wire UnmarshalFromJSON(MarshalToJSON(v))=v or rejection, and strict encoders must reject what they cannot represent.",
+    "Trusted: encoding/json, gopkg.in/yaml.v3 as document parsers; the content model. The wire format is exercised through rel.MarshalToJSON/UnmarshalFromJSON, not over gRPC.",
+    "DESIGN.md §7 C13")
+CLAIMED["C15"] = ("exploration",
+    "differential runtime monitor (source tree vs bundle) with recording filesystems, archive audit, and strace over the real arrai binaries",
+    "Generated module layouts (seed-independent grid of 3.4k + seeded random: with/without go.mod, nested roots, ./ and / imports, data files with implicit/explicit decoders, diamonds, main anywhere) are evaluated from sources on a MemMapFs and from the bundle (sources deleted, several working directories); results compared by denotation/failure class; host filesystems are recorders that must see zero operations during a bundle run; every file the source evaluation used must have a same-content archive entry that the bundle run opened. A sample goes through the real `arrai bundle`/`arrai run x.arraiz` binaries under strace -f: no path under the former source dir, no go.mod, no host path the source run did not touch.",
+    "Trusted: recording afero wrappers, the strace parser (canaries prove it sees arrai's file access). Non-local (module/URL) imports cannot run offline and are not generated.",
+    "DESIGN.md §7 C15")
+CLAIMED["C16"] = ("exploration",
+    "runtime monitor over a recording filesystem: every file read during import is checked against the module root; token-based consistency; cycles via the logical hang monitor",
+    "Hostile import path strings (grammar over ., .., ..., names, empty, blank, tab, %2e%2e, padded, repeated separators; exhaustive <=4 segments in thorough) in 120 contexts (5 layouts x 4 depths x 3 script-addressing modes x direct/via helper) with decoy secret files in every ancestor and sibling directory: every file whose content is read must lie beneath the importer's module root and no decoy token may reach the result; DAGs with files imported through several spellings/importers must give equal values (by token, by = and against the model); every cyclic graph (length 1-4, through diamonds, random back edges, and entered concurrently by goroutines sharing one cache) must produce an error - a hang is decided by the blocked-forever criterion.",
+    "Trusted: the recording fs (a read = successful open of a non-directory delivering >=1 byte). Confinement is lexical over MemMapFs; symlinks and module/URL imports are out of scope.",
+    "DESIGN.md §7 C16")
+CLAIMED["C18"] = ("exploration",
+    "runtime effect monitor: sandboxed evaluations run in a child under strace (openat/connect/execve) with canary files, plus a capability walk over returned values and an audit of the safe library",
+    "Configurations (stdlib sub-tuples x scopes) x routes (direct //refs, every unsafe-library path, nested //eval.*, evaluator(cfg), returned functions applied later, import syntax, macros, //fn.fix) x targets: a step violates when an ungiven file/net/exec native is reachable in the result, a canary token appears in result or error text, a canary is opened, a connect is attempted or an execve happens while that capability was not passed in; every ungiven //path must fail. Each traced child first runs four unsandboxed controls (file, net, exec, null) so a blind monitor is inconclusive, not a pass. Every native of SafeStdScopeTuple is invoked under the same monitors.",
+    "Trusted: strace, marker windows. Closures are opaque to the walk (covered by apply-later variants through the effect monitors). Known escape routes are pinned by route so a new route is reported.",
+    "DESIGN.md §7 C18")
+
 NOT_YET = "check not built yet in this session (planned, see DESIGN.md §7/§12); will be claimed once its monitor is silent on the unchanged tree and catches seeded breaks"
 
 def main():
